@@ -1040,7 +1040,12 @@ class sptensor:
             return C
 
         if isinstance(other, ttb.tensor):
-            BB = sptensor(self.subs, self._vals_of(other), self.shape)
+            if self.nnz == 0:
+                return sptensor(shape=self.shape)
+            # Only the nonzeros of the dense tensor take part
+            othervals = self._vals_of(other)
+            keep = othervals[:, 0] != 0
+            BB = sptensor(self.subs[keep], othervals[keep], self.shape)
             C = self.logical_and(BB)
             return C
 
